@@ -93,6 +93,20 @@ CHECKS = {
              'section declared shorter than its content.',
         note='Trusted: mc.ref.message (layout from FM-94). Deviation bound 1 (quick) / 2 (thorough) on simultaneous '
              'non-default declared lengths / surplus sections; data lengths beyond 32 bits repeat residues mod 16.'),
+    'C08': dict(
+        level='model_checking', design='DESIGN.md §4 C08',
+        technique='differential E1 choice-tree exploration: programs (template grammar, C07 bitmap structures incl. '
+                  'operators in force at markers, every distinct sequence of every bundled Table D >= 19, corpus) x '
+                  'structure data (all replication counts / bit patterns, factor deviations) x field-value deviations, '
+                  'each decoded plain / compiled / compiled-after-JSON-reload and encoded plain / compiled; unmerged '
+                  'exploration of all decode orders up to length 4 (5) over a 4-program pool x cache sizes {0,1,2,8}',
+        text='For every (program, input) of the bounded space the compiled decode, the decode with a template that went '
+             'through to_dict/JSON/loads_compiled_template, and the compiled encode must equal the non-compiled result '
+             '(values, labels, links, bytes or exception type); every history of decodes through one compiling decoder '
+             'must give the fresh non-compiled result, including two programs with the same descriptor list under table '
+             'versions that define an element differently.',
+        note='Oracle is differential (non-compiled path, anchored to the reference model by C01/C02). Templates that open an '
+             'operator inside a replication body and close it outside are outside the property.'),
     'C09': dict(
         level='model_checking', design='DESIGN.md §4 C09',
         technique='exhaustive enumeration of ALL strings of length 2 (thorough 3) over a 12-character alphabet of '
